@@ -34,6 +34,7 @@ def instances(tier, seed):
         yield {"kind": "Qenum", "n": n}
     for lo, hi in ((7 if tier == "quick" else 8, 12), (13, 16), (17, 19), (20, 22)):
         yield {"kind": "Qref", "lo": lo, "hi": hi}
+    yield {"kind": "QQ7"}
     maxn = 4 if tier == "quick" else 5
     for n in range(1, maxn + 1):
         masks = list(enumr.labelled_graph_masks(n))
@@ -193,6 +194,21 @@ def run_instance(inst, tier):
             except Exception as e:
                 res.violation("C16:Q-raises", f"Q({n},{k}) raised {e!r}", dict(inst, k=k, f="Q"))
         res.samples.append({"n": n, "connected_labelled_graph_counts_by_edges": counts})
+    elif kind == "QQ7":
+        # the brute-force counter beyond n = 6, for the edge counts that are cheap to enumerate
+        from gcmpy.message_passing.number_connected_graphs import QQ
+        for k in (21, 20, 19, 18, 6, 5):
+            res.executions += 1
+            res.states += 1
+            res.transitions += 1
+            try:
+                got = QQ(7, k)
+            except Exception as e:
+                got = repr(e)
+            if got != ref_Q(7, k):
+                res.violation("C16:QQ-count", f"QQ(7,{k}) = {got}, there are {ref_Q(7, k)} connected labelled graphs "
+                              f"with 7 vertices and {k} edges", {"kind": "QQ7"})
+            res.nontrivial.add(("QQ7", k))
     elif kind == "Qref":
         from gcmpy.message_passing.number_connected_graphs import Q
         for n in range(inst["lo"], inst["hi"] + 1):
@@ -238,6 +254,11 @@ def run_instance(inst, tier):
                             res.transitions += 1
                             try:
                                 got = number_of_connected_graphs(G, list(ak), i, k)
+                                # the focal vertex (or a repeated vertex) inside ak does not change the vertex set
+                                if got == want and r <= 2:
+                                    alt = number_of_connected_graphs(G, list(ak) + [i] + list(ak[:1]), i, k)
+                                    if alt != want:
+                                        got = f"{alt} (with the focal vertex and a repeated vertex listed in ak)"
                             except Exception as e:
                                 got = repr(e)
                             if got != want:
